@@ -92,6 +92,8 @@ def run(ctx):
         "zero": ["--max-heap-size=32M"],
     }
     rng = random.Random(ctx.seed)
+    if ctx.quick:
+        builds = [("cannon", None), ("boots", "copy"), ("cannon", "sweep"), ("boots", None)]
     for backend, gc in builds:
         exe = os.path.join(ctx.work, f"heap_{backend}_{gc or 'swiper'}")
         b, msg = progs.compile_prog(src, exe, backend=backend, gc=gc, timeout=900)
@@ -101,7 +103,7 @@ def run(ctx):
         if ctx.quick:
             fs = [fs[0]] + rng.sample(fs[1:], min(1, len(fs) - 1))
         for flags in fs:
-            sub = expected if not ctx.quick else dict(list(expected.items())[:6])
+            sub = expected if not ctx.quick else dict(list(expected.items())[:5])
             run_cases(ctx, exe, sub, flags, f"heap-behaviour [{backend}/{gc or 'swiper'}]", src_text)
     # 3. threads
     for i in range(1 if ctx.quick else 4):
@@ -127,7 +129,7 @@ def run(ctx):
         csrc, _, meta = heap_churn.program(ctx.seed * 10 + i)
         p = os.path.join(ctx.work, f"churn{i}.dora")
         open(p, "w").write(csrc)
-        for backend, gc in [("cannon", None), ("boots", "copy"), ("cannon", "sweep")]:
+        for backend, gc in ([("cannon", None), ("boots", "copy"), ("cannon", "sweep")] if not ctx.quick else [("cannon", "sweep"), ("boots", None)]):
             exe = os.path.join(ctx.work, f"churn{i}_{backend}_{gc or 'swiper'}")
             b, msg = progs.compile_prog(p, exe, backend=backend, gc=gc)
             if b is None:
